@@ -20,6 +20,8 @@ use crate::{
 pub mod c01;
 pub mod c02;
 pub mod c08;
+pub mod c09;
+pub mod c20;
 pub mod common;
 pub mod hon;
 
